@@ -11,8 +11,10 @@
 // on a real table.Table created, like main() does, from the decoded configuration.  One load
 // may add several entries (several sections / blacklist lines / commands): every entry the load
 // added is read back, in table order.
-// It records only; the expected entry is computed by TLC from spec/Config.tla and compared
-// by the check.
+// Whether the loader accepted the configuration or refused it with an error is an outcome like any
+// other (ok / rejected + the error text): an explicit 0 for some options must be refused.
+// It records only; the expected entry (or "refused") is computed by TLC from spec/Config.tla and
+// compared by the check.
 package conf
 
 import (
@@ -52,6 +54,8 @@ type outRec struct {
 	Form     string                   `json:"form"`
 	Ok       bool                     `json:"ok"`
 	Err      string                   `json:"err"`
+	Rejected bool                     `json:"rejected"` // the real loader (InitTable / Apply) refused the configuration with an error
+	Stage    string                   `json:"stage"`    // where the error came from: "decode" (TOML syntax), "load"
 	Instance string                   `json:"instance"`
 	SpoolDir string                   `json:"spool_dir"`
 	Added    map[string]int           `json:"added"`   // how many entries of each kind the load added
@@ -301,11 +305,13 @@ func child(t *testing.T, inPath, outPath, hdrPath, progPath string) {
 			meta, err := toml.Decode(c.Text, &config)
 			if err != nil {
 				rec.Err = "toml.Decode: " + err.Error()
+				rec.Stage = "decode"
 				break
 			}
 			rec.Instance, rec.SpoolDir = config.Instance, config.Spool_dir
 			if err := cfg.InitTable(tab, config, meta); err != nil {
 				rec.Err = "InitTable: " + err.Error()
+				rec.Rejected, rec.Stage = true, "load"
 				break
 			}
 			rec.Ok = true
@@ -315,6 +321,7 @@ func child(t *testing.T, inPath, outPath, hdrPath, progPath string) {
 				if err := imperatives.Apply(tab, cmd); err != nil {
 					rec.Err = fmt.Sprintf("Apply #%d: %s", i+1, err.Error())
 					rec.Ok = false
+					rec.Rejected, rec.Stage = true, "load"
 					break
 				}
 			}
